@@ -706,7 +706,12 @@ def run(tier):
                         'bound': 'all strings over {ED,00,01} up to length 9 x 2 block forms; runs 1..600 of ED and of 07 with every prefix/suffix in {none, ED, 09}', 'evaluations': n})
     for b in bad[:3]:
         rep.violation('C09/rle/%s' % b[0], 'Z80 run-length coder: %s' % (b,), {'case': b})
-    ev, bad = files_bounded(common.seed(), 12 if quick else 200)
+    try:
+        ev, bad = files_bounded(common.seed(), 12 if quick else 200)
+    except Exception as ex:
+        # the real writer / reader raised on a generated machine state: that is itself a failed round trip
+        import traceback
+        ev, bad = 1, [('exception', 'write_snapshot / Snapshot.get', repr(ex)[:200], traceback.format_exc()[-300:])]
     rep.bounded.append({'function': 'skoolkit.snapshot.write_snapshot / Snapshot.get (Z80 v3 and SZX, 48K and 128K)', 'contract': 'get(write(s)) == s; z80 == szx on common fields; independent readers agree',
                         'bound': '%d generated machine states (long runs, ED patterns, boundary register values)' % (ev // 2), 'evaluations': ev})
     seen = set()
@@ -716,7 +721,10 @@ def run(tier):
             continue
         seen.add(key)
         rep.violation(key, 'snapshot file round trip: %s' % (b,), {'case': b})
-    ev, bad = pokes_bounded(common.seed(), 300 if quick else 5000)
+    try:
+        ev, bad = pokes_bounded(common.seed(), 300 if quick else 5000)
+    except Exception as ex:
+        ev, bad = 1, [('exception', 'poke / move', repr(ex)[:200], [])]
     rep.bounded.append({'function': 'skoolkit.snapshot.poke / move', 'contract': 'exactly the named cells change, to the named values', 'bound': '%d generated specs' % ev, 'evaluations': ev})
     for b in bad[:3]:
         rep.violation('C09/%s' % b[0], 'poke/move frame contract: %s' % (b,), {'case': b})
